@@ -59,8 +59,19 @@ def lazy_iterate_dicts(dict_of_iterables):
 
 def generate_combinations(generators_dict):
     """Yield all combinations of generator values as keyword arguments"""
-    for combination in itertools.product(*generators_dict.values()):
-        yield dict(zip(generators_dict.keys(), combination))
+    keys = list(generators_dict.keys())
+    if not keys:
+        yield {}
+        return
+    # itertools.product exhausts all its inputs before it yields the first combination, which would consume a lazily
+    # supplied domain completely for the first result. Only the values that have to be revisited are materialized.
+    first, *rest = generators_dict.values()
+    rest_values = None
+    for value in first:
+        if rest_values is None:
+            rest_values = [list(values) for values in rest]
+        for combination in itertools.product(*rest_values):
+            yield dict(zip(keys, (value,) + combination))
 
 
 def filter_data(data, selected_indices):
